@@ -22,11 +22,11 @@ INFO = {
     'require': {
         'quick': {'counters': {'sat_inverse': 1000, 'b23_inverse': 200, 'identity_r1': 500, 'identity_r2': 500,
                                'identity_r3': 500, 'monotone_density': 500, 'viscosity': 1000, 'boundary_13': 20,
-                               'boundary_23': 20, 'clausius_clapeyron': 100, 'region_classified': 2000, 'region_end_points': 100},
+                               'boundary_23': 20, 'clausius_clapeyron': 100, 'region_classified': 2000, 'region_end_points': 100, 'history_independent': 100},
                   'nontrivial': 3000},
         'thorough': {'counters': {'sat_inverse': 4000, 'b23_inverse': 1000, 'identity_r1': 3000, 'identity_r2': 3000,
                                   'identity_r3': 3000, 'monotone_density': 3000, 'viscosity': 8000, 'boundary_13': 100,
-                                  'boundary_23': 100, 'clausius_clapeyron': 400, 'region_classified': 20000, 'region_end_points': 100},
+                                  'boundary_23': 100, 'clausius_clapeyron': 400, 'region_classified': 20000, 'region_end_points': 100, 'history_independent': 800},
                      'nontrivial': 20000},
     },
     'watchdog_s': {'quick': 900, 'thorough': 3600},
@@ -610,9 +610,67 @@ def run_visc_special(ctx):
         check_visc(ctx, W, ctx.rng.uniform(0.001, 1200.0), TCRIT, 'critical-temperature')
 
 
+# -- a value is a function of the state asked for, not of what was asked before (seed C14-20) -------------
+_REDUCING = {'cowat': (16.53e6, 1386.0), 'supst': (1.0e6, 540.0), 'super': (322.0, 647.096)}
+_ROUND = (0.5, 0.75, 1.0, 1.25, 1.5, 2.0, 0.8, 1.2, 1.6, 2.5)
+
+
+def _fresh_module():
+    """A second, pristine copy of the library's IAPWS97 module (own module-level state)."""
+    import importlib.util
+    _fresh_module.n = getattr(_fresh_module, 'n', 0) + 1
+    spec = importlib.util.spec_from_file_location('IAPWS97_pristine_%d' % _fresh_module.n, R.IAPWS97.__file__)
+    m = importlib.util.module_from_spec(spec)
+    spec.loader.exec_module(m)
+    return m
+
+
+def _outcome(m, name, args):
+    try:
+        return repr(getattr(m, name)(*args))
+    except Exception as e:
+        return 'raised %s: %s' % (type(e).__name__, e)
+
+
+def run_history(ctx, trials):
+    """Every routine is a function of its arguments: the long-lived module, after any sequence of
+    earlier calls, must answer exactly as a pristine copy of the module asked that one question.
+    The sequences use states whose reduced variables (pi, tau, delta of the three regions) are the
+    SAME float in different routines, where state carried over between calls would meet."""
+    W = R.IAPWS97
+    rng = ctx.rng
+    for _ in range(trials):
+        xs = [rng.choice(_ROUND) if rng.random() < 0.6 else round(rng.uniform(0.4, 2.6), rng.choice((1, 2, 3))) for _ in range(2)]
+        seq = []
+        for _ in range(rng.randint(2, 5)):
+            name = rng.choice(('cowat', 'supst', 'super', 'sat', 'tsat', 'visc'))
+            x, y = rng.choice(xs), rng.choice(xs)
+            if name in ('cowat', 'supst'):
+                ps, ts = _REDUCING[name]; args = (ts / y - 273.15, x * ps)
+            elif name == 'super':
+                ds, ts = _REDUCING[name]; args = (x * ds, ts / y - 273.15)
+            elif name == 'sat':
+                args = (rng.choice((540.0, 647.096, 1386.0)) / y - 273.15,)
+            elif name == 'tsat':
+                args = (x * rng.choice((1.0e6, 16.53e6)),)
+            else:
+                args = (x * 322.0, 647.096 / y - 273.15)
+            seq.append((name, args))
+        got = [_outcome(W, n, a) for n, a in seq]
+        for k, (n, a) in enumerate(seq):
+            want = _outcome(_fresh_module(), n, a)
+            ctx.count('history_independent')
+            ctx.case(('history', n) + a, True)
+            if got[k] != want:
+                ctx.violation('history-dependent:%s' % n,
+                              '%s%r gives %s when asked of a pristine module, %s after the calls %r' % (n, a, want, got[k], seq[:k]),
+                              {'clause': 'history independence', 'sequence': [[n2, list(a2)] for n2, a2 in seq[:k + 1]]})
+
+
 def run_shard(ctx, spec):
     if spec['part'] == 'regions':
         run_visc_special(ctx)
+        run_history(ctx, 60 if spec['f'] > 1 else 400)
     {'inverse': run_inverse, 'identities': run_identities, 'boundaries': run_boundaries, 'regions': run_regions}[spec['part']](ctx, spec)
 
 
@@ -622,6 +680,8 @@ def replay(ctx, case):
         run_inverse(ctx, {'f': 4})
     elif c.startswith('identity') or c.startswith('visc'):
         run_identities(ctx, {'f': 4, 'which': [1, 2, 3]})
+    elif c.startswith('history'):
+        run_history(ctx, 60)
     elif c.startswith('region'):
         run_regions(ctx, {'f': 4})
     else:
